@@ -1006,6 +1006,10 @@ func hashRegistration(r Registration, hh ssz.HashWalker) error {
 	indx := hh.Index()
 
 	// Field (0) 'FeeRecipient'
+	if len(r.FeeRecipient) != addressLen {
+		return errors.New("invalid fee recipient length", z.Int("l", len(r.FeeRecipient)))
+	}
+
 	hh.PutBytes(r.FeeRecipient)
 
 	// Field (1) 'GasLimit' uint64
